@@ -366,6 +366,9 @@ fn expected_rules(name: &str) -> Vec<Rule> {
 /// rules engine; TCP clients send a real ClientHello carrying a chosen random and watch for the
 /// ServerHello, QUIC clients complete their handshake (the random is whatever quiche drew) and ask for
 /// a health check. Admitted or dropped, compared with the rules model for the peer's actual address.
+const TAIL28: &str = "0000000000000000000000000000000000000000000000000000000000000000/0000000000000000000000000000000000000000000000000000000080000000";
+const TAIL31: &str = "0000000000000000000000000000000000000000000000000000000000000000/0000000000000000000000000000000000000000000000000000000000000001";
+
 pub fn run_live(ctx: &mut Ctx) {
     use crate::c02h3::LiveEndpoint;
     use crate::h3cli::H3Client;
@@ -384,6 +387,9 @@ pub fn run_live(ctx: &mut Ctx) {
         vec![r(Some("10.0.0.0/8"), Some("00/00"), Deny), r(None, Some("00/00"), Allow), r(None, None, Deny)],
         vec![r(None, Some("0/f"), Deny), r(Some("127.0.0.0/8"), Some("c0/c0"), Deny)],
         vec![r(None, Some("zz"), Deny), r(Some("banana"), None, Deny), r(Some("127.0.0.1/32"), Some("40/c0"), Deny)],
+        // patterns over the whole 32-byte random that look at its last bytes only (a bit of byte 28, of byte 31)
+        vec![r(None, Some(TAIL28), Deny)],
+        vec![r(None, Some(TAIL31), Allow), r(None, None, Deny)],
     ];
     if ctx.thorough() {
         let cidrs = [None, Some("127.0.0.0/8"), Some("127.0.0.1/32"), Some("::ffff:127.0.0.0/104"), Some("10.0.0.0/8"), Some("::/0"), Some("0.0.0.0/0")];
